@@ -737,6 +737,24 @@ def stream_relto(rng, tier):
         pairs = [(a, b) for a in vals for b in vals]
     for a, b in pairs:
         yield "relto u %s %s" % (hx(a), hx(b))
+    # the target continues the base literally: the remainder must still be written as a relative
+    # reference (a first segment with ':' needs its './', an empty one its shield, ...)
+    dirs = ["s://h/ns/", "s://h/", "s:/a/", "s:a/", "s://h/a/b/", "http://example.org/ns/", "s://h/ns", "s://h/ns/x",
+            "s://h/ns/?q", "s://h/ns/#f", "s://h/n%73/", "s://H/ns/", "s://h/ns/./", "s://h/ns/x/../"]
+    tails = ["a:b", "urn:isbn:0451450523", ":", "a:b/c", "c/a:b", "", "x", "x/", "/x", "//x", ".", "..", "./x", "../x",
+             "a:b?q", "a:b#f", "?q", "#f", "x?q#f", "%3A", "a%3Ab", "é:b"]
+    for d in dirs:
+        for t in tails:
+            base = d.split("?")[0].split("#")[0]
+            for f in "ui":
+                if f == "u" and "é" in t:
+                    continue
+                yield "relto %s %s %s" % (f, hx(base + t), hx(d))
+                yield "relto %s %s %s" % (f, hx(d), hx(base + t))
+                yield "reltoref %s %s %s" % (f, hx(base + t), hx(d))
+                if d.startswith("s://h"):
+                    yield "reltoref %s %s %s" % (f, hx((base + t)[2:]), hx(d[2:]))
+                    yield "reltoref %s %s %s" % (f, hx((base + t)[5:]), hx(d[5:]))
     n = 2000 if tier == "quick" else 100000
     for _ in range(n):
         f = rng.choice("ui")
@@ -765,6 +783,23 @@ def stream_suffix(rng, tier):
             if a.startswith(("s:", "t:")) and b.startswith(("s:", "t:")):
                 yield "suffix u full %s %s" % (hx(a), hx(b))
                 yield "suffix i full %s %s" % (hx(a), hx(b))
+    # the same path pairs inside whole references, through each of the four entry points: a prefix
+    # spelt with dot segments is textually longer than the value it is a prefix of
+    aps = [p for p in exhaustive("a/.", 4)]
+    if tier == "quick":
+        ppairs = [(rng.choice(aps), rng.choice(aps)) for _ in range(1500)]
+    else:
+        ppairs = [(a, b) for a in aps for b in aps if len(a) + len(b) <= 6]
+    ppairs += [("b/c", "x/../b"), ("a/b", "./././a"), ("a", "a/b/.."), ("a/b", "a/./."), ("a/b/c", "a/x/y/../../b"),
+               ("a", "./a"), ("a/b", "../a"), ("", "."), ("a", "a/."), ("a/", "a/b/..")]
+    for a, b in ppairs:
+        for ctx in ["s://h/", "s:/", "s:", "//h/", "/", ""]:
+            va, vb = ctx + a, ctx + b
+            tail = rng.choice(["", "?q", "#f", "?q#f"])
+            for f in "ui":
+                yield "suffix %s ref %s %s" % (f, hx(va + tail), hx(vb))
+                if ctx.startswith("s:"):
+                    yield "suffix %s full %s %s" % (f, hx(va + tail), hx(vb))
     for s in exhaustive("a:/?#.", 5 if tier == "quick" else 6):
         yield "base u ref %s" % hx(s)
         if ":" in s:
